@@ -12,12 +12,13 @@
 (*                Decode(EncodeWith(e, i)) = i, and the register-set laws    *)
 (*  family "adr": one entry x base x index x scale x boundary displacement   *)
 (*  family "kat": known answers (byte strings of the manuals' examples and   *)
-(*                of GNU objdump / llvm-objdump listings)                    *)
+(*                of GNU objdump / llvm-objdump listings) for Decode and for *)
+(*                the register sets Reads / Writes                           *)
 EXTENDS X64, TLC, SequencesExt
 CONSTANTS Deep, Fams
 
-VARIABLES fam, c
-vars == <<fam, c>>
+VARIABLES fam, cs
+vars == <<fam, cs>>
 Nil == [k |-> "none"]
 
 \* ---- operand instances
@@ -49,7 +50,7 @@ ImmChoices(kind, osz) ==
       [] OTHER -> {One}
 Sizes(e) == IF e.w8 THEN {8}
             ELSE IF e.sse THEN (IF e.regk = "gpr" \/ e.rmk = "gpr" THEN {32, 64} ELSE {32})
-            ELSE IF e.enc = "D" THEN {64}
+            ELSE IF e.enc = "D" \/ e.mn \in {"call", "jmp", "ret"} THEN {64}
             ELSE IF e.d64 THEN {16, 64}
             ELSE IF e.mn = "movsxd" THEN {64}
             ELSE {16, 32, 64}
@@ -163,42 +164,42 @@ AdrSeq == Mk([b \in 1..18 |-> SetToSeq({Build(AdrEntry, 64, Reg(9, 64), m, One, 
                                           m \in {x \in MemAll(64) : x.base = (IF b = 17 THEN None ELSE IF b = 18 THEN RIP ELSE b - 1)}})])
 
 \* ---- state machine: one state per case
-Init == fam = "none" /\ c = Nil
-PickFam == fam = "none" /\ fam' \in Fams /\ c' = Nil
-PickByte == fam = "fld" /\ c = Nil /\ UNCHANGED fam /\ \E v \in 0..255 : c' = [k |-> "byte", v |-> v]
-PickInt == fam = "fld" /\ c = Nil /\ UNCHANGED fam /\ \E v \in Disps \cup {-2, 2, 65535, 65536, -65536, 16777215, 16777216, -16777216, -16777217} :
-               c' = [k |-> "int", v |-> v]
-PickTab == fam = "tab" /\ c = Nil /\ UNCHANGED fam /\ \E j \in 1..Len(TableSeq) : c' = [k |-> "tab", e |-> TableSeq[j]]
-PickEntry == fam = "enc" /\ c = Nil /\ UNCHANGED fam /\ \E j \in 1..Len(TableSeq) : c' = [k |-> "entry", j |-> j]
-PickInst == fam = "enc" /\ c.k = "entry" /\ UNCHANGED fam
-            /\ \E n \in 1..Len(InstSeq[c.j]) : c' = [k |-> "ins", e |-> TableSeq[c.j], i |-> InstSeq[c.j][n]]
-PickAdrBase == fam = "adr" /\ c = Nil /\ UNCHANGED fam /\ \E b \in 1..18 : c' = [k |-> "adr-", b |-> b]
-PickAdr == fam = "adr" /\ c.k = "adr-" /\ UNCHANGED fam
-           /\ \E n \in 1..Len(AdrSeq[c.b]) : c' = [k |-> "ins", e |-> AdrEntry, i |-> AdrSeq[c.b][n]]
-PickKat == fam = "kat" /\ c = Nil /\ UNCHANGED fam /\ \E n \in 1..Len(Kat) : c' = [k |-> "kat", n |-> n]
+Init == fam = "none" /\ cs = Nil
+PickFam == fam = "none" /\ fam' \in Fams /\ cs' = Nil
+PickByte == fam = "fld" /\ cs = Nil /\ UNCHANGED fam /\ \E v \in 0..255 : cs' = [k |-> "byte", v |-> v]
+PickInt == fam = "fld" /\ cs = Nil /\ UNCHANGED fam /\ \E v \in Disps \cup {-2, 2, 65535, 65536, -65536, 16777215, 16777216, -16777216, -16777217} :
+               cs' = [k |-> "int", v |-> v]
+PickTab == fam = "tab" /\ cs = Nil /\ UNCHANGED fam /\ \E j \in 1..Len(TableSeq) : cs' = [k |-> "tab", e |-> TableSeq[j]]
+PickEntry == fam = "enc" /\ cs = Nil /\ UNCHANGED fam /\ \E j \in 1..Len(TableSeq) : cs' = [k |-> "entry", j |-> j]
+PickInst == fam = "enc" /\ cs.k = "entry" /\ UNCHANGED fam
+            /\ \E n \in 1..Len(InstSeq[cs.j]) : cs' = [k |-> "ins", e |-> TableSeq[cs.j], ins |-> InstSeq[cs.j][n]]
+PickAdrBase == fam = "adr" /\ cs = Nil /\ UNCHANGED fam /\ \E b \in 1..18 : cs' = [k |-> "adr-", b |-> b]
+PickAdr == fam = "adr" /\ cs.k = "adr-" /\ UNCHANGED fam
+           /\ \E n \in 1..Len(AdrSeq[cs.b]) : cs' = [k |-> "ins", e |-> AdrEntry, ins |-> AdrSeq[cs.b][n]]
+PickKat == fam = "kat" /\ cs = Nil /\ UNCHANGED fam /\ \E n \in 1..Len(Kat) : cs' = [k |-> "kat", n |-> n]
 Next == PickFam \/ PickByte \/ PickInt \/ PickTab \/ PickEntry \/ PickInst \/ PickAdrBase \/ PickAdr \/ PickKat
 
 \* ---- laws
-LawModRM == c.k = "byte" =>
-    LET f == ModRMFields(c.v)  s == SibFields(c.v) IN
-    /\ f.mod \in 0..3 /\ f.reg \in 0..7 /\ f.rm \in 0..7 /\ ModRMByte(f.mod, f.reg, f.rm) = c.v
-    /\ s.ss \in 0..3 /\ s.index \in 0..7 /\ s.base \in 0..7 /\ SibByte(s.ss, s.index, s.base) = c.v
-LawRex == c.k = "byte" /\ c.v \in 64..79 =>
-    LET x == RexBits(c.v) IN x.w \in 0..1 /\ x.r \in 0..1 /\ x.x \in 0..1 /\ x.b \in 0..1 /\ RexByte(x.w, x.r, x.x, x.b) = c.v
-LawSign == c.k = "byte" => /\ S8(c.v) \in -128..127 /\ (S8(c.v) - c.v) % 256 = 0 /\ IntBytes(S8(c.v), 1) = <<c.v>>
-                           /\ SignExtend(<<c.v>>, 4) = IntBytes(S8(c.v), 4)
-LawDisp == c.k = "int" =>
-    /\ S32At(IntBytes(c.v, 4), 1) = c.v
-    /\ SignExtend(IntBytes(c.v, 4), 8) = IntBytes(c.v, 8)
-    /\ (DispFits8(c.v) <=> S8(IntBytes(c.v, 1)[1]) = c.v)
-    /\ Designates(IntBytes(c.v, 16), IntBytes(c.v, 8)) /\ Designates(IntBytes(c.v, 16), IntBytes(c.v, 4))
+LawModRM == cs.k = "byte" =>
+    LET f == ModRMFields(cs.v)  s == SibFields(cs.v) IN
+    /\ f.mod \in 0..3 /\ f.reg \in 0..7 /\ f.rm \in 0..7 /\ ModRMByte(f.mod, f.reg, f.rm) = cs.v
+    /\ s.ss \in 0..3 /\ s.index \in 0..7 /\ s.base \in 0..7 /\ SibByte(s.ss, s.index, s.base) = cs.v
+LawRex == cs.k = "byte" /\ cs.v \in 64..79 =>
+    LET x == RexBits(cs.v) IN x.w \in 0..1 /\ x.r \in 0..1 /\ x.x \in 0..1 /\ x.b \in 0..1 /\ RexByte(x.w, x.r, x.x, x.b) = cs.v
+LawSign == cs.k = "byte" => /\ S8(cs.v) \in -128..127 /\ (S8(cs.v) - cs.v) % 256 = 0 /\ IntBytes(S8(cs.v), 1) = <<cs.v>>
+                           /\ SignExtend(<<cs.v>>, 4) = IntBytes(S8(cs.v), 4)
+LawDisp == cs.k = "int" =>
+    /\ S32At(IntBytes(cs.v, 4), 1) = cs.v
+    /\ SignExtend(IntBytes(cs.v, 4), 8) = IntBytes(cs.v, 8)
+    /\ (DispFits8(cs.v) <=> S8(IntBytes(cs.v, 1)[1]) = cs.v)
+    /\ Designates(IntBytes(cs.v, 16), IntBytes(cs.v, 8)) /\ Designates(IntBytes(cs.v, 16), IntBytes(cs.v, 4))
 \* no two entries claim the same (map, opcode, extension, selecting prefix); fields are in range
 Overlap(a, b) == /\ a.map = b.map
                  /\ (IF a.plus \/ b.plus THEN a.op \div 8 = b.op \div 8 ELSE a.op = b.op)
                  /\ (a.ext = None \/ b.ext = None \/ a.ext = b.ext)
                  /\ (a.sse /\ b.sse => a.pfx = b.pfx)
-LawTable == c.k = "tab" =>
-    LET e == c.e IN
+LawTable == cs.k = "tab" =>
+    LET e == cs.e IN
     /\ e.op \in 0..255 /\ e.map \in 1..2 /\ e.ext \in {None} \cup 0..7 /\ e.pfx \in {0, 102, 242, 243}
     /\ (e.plus => e.op % 8 = 0)
     /\ (e.ext # None => HasModRM(e) /\ ~HasRegRole(e))
@@ -206,21 +207,22 @@ LawTable == c.k = "tab" =>
     /\ \A o \in Table : Overlap(e, o) => o = e
     /\ (e.map = 1 => e.op \notin Invalid64 /\ e.op \notin {15, 102, 242, 243} \cup OtherPfx \cup 64..79)
 \* the central law: the decoder inverts the reference encoder
-LawDecodeEncode == c.k = "ins" /\ Encodable(c.e, c.i) =>
-    LET b == EncodeWith(c.e, c.i) IN Len(b) <= 15 /\ Decode(b) = [c.i EXCEPT !.len = Len(b)]
+LawDecodeEncode == cs.k = "ins" /\ Encodable(cs.e, cs.ins) =>
+    LET b == EncodeWith(cs.e, cs.ins) IN Len(b) <= 15 /\ Decode(b) = [cs.ins EXCEPT !.len = Len(b)]
 \* ... and consumes exactly the instruction: appended bytes are not part of it, a truncated string is never accepted
-LawLength == c.k = "ins" /\ Encodable(c.e, c.i) =>
-    LET b == EncodeWith(c.e, c.i) IN
+LawLength == cs.k = "ins" /\ Encodable(cs.e, cs.ins) =>
+    LET b == EncodeWith(cs.e, cs.ins) IN
     /\ Decode(b \o <<144>>).len = Len(b)
-    /\ \A n \in 1..(Len(b) - 1) : Decode(SubSeq(b, 1, n)).st # "ok" \/ (n = 1 /\ b[1] \in {242, 243})
+    /\ \A n \in (IF Deep \/ fam # "enc" THEN 1..(Len(b) - 1) ELSE {1, 2, Len(b) - 2, Len(b) - 1} \cap 1..(Len(b) - 1)) :
+           Decode(SubSeq(b, 1, n)).st # "ok" \/ (n = 1 /\ b[1] \in {242, 243})
 \* field laws of the emitted bytes: REX position and bits, SIB presence, displacement form
-LawFields == c.k = "ins" /\ Encodable(c.e, c.i) /\ HasModRM(c.e) =>
-    LET b == EncodeWith(c.e, c.i)
-        o == EncOps(c.e, c.i)
+LawFields == cs.k = "ins" /\ Encodable(cs.e, cs.ins) /\ HasModRM(cs.e) =>
+    LET b == EncodeWith(cs.e, cs.ins)
+        o == EncOps(cs.e, cs.ins)
         pf == Prefixes(b, 1, NoPfx)
         hasrex == b[pf.pos] \in 64..79
         rex == IF hasrex THEN RexBits(b[pf.pos]) ELSE NoRex
-        q == pf.pos + (IF hasrex THEN 1 ELSE 0) + (IF c.e.map = 2 THEN 2 ELSE 1)       \* the ModRM byte
+        q == pf.pos + (IF hasrex THEN 1 ELSE 0) + (IF cs.e.map = 2 THEN 2 ELSE 1)       \* the ModRM byte
         f == ModRMFields(b[q])
     IN /\ (o.rm.k # "mem" <=> f.mod = 3)
        /\ (o.rm.k = "mem" =>
@@ -230,11 +232,11 @@ LawFields == c.k = "ins" /\ Encodable(c.e, c.i) /\ HasModRM(c.e) =>
              /\ (f.mod = 1 => DispFits8(o.rm.disp))
              /\ (o.rm.base \notin {None, RIP} => rex.b = o.rm.base \div 8)
              /\ (o.rm.idx # None => rex.x = o.rm.idx \div 8))
-       /\ (c.e.ext # None => f.reg = c.e.ext)
-       /\ (rex.w = 1 <=> (c.i.osz = 64 /\ ~c.e.w8 /\ ~c.e.d64))
+       /\ (cs.e.ext # None => f.reg = cs.e.ext)
+       /\ (rex.w = 1 <=> (cs.ins.osz = 64 /\ ~cs.e.w8 /\ ~cs.e.d64))
 \* register sets: address registers are read, never written; compare / test write nothing; the families are in range
-LawRegSets == c.k = "ins" =>
-    LET i == c.i IN
+LawRegSets == cs.k = "ins" =>
+    LET i == cs.ins IN
     /\ Modelled(i)
     /\ Reads(i) \cup Writes(i) \subseteq 0..31
     /\ \A j \in 1..Len(i.ops) : (i.mn # "nop" => Addr(i.ops[j]) \subseteq Reads(i)) /\ (i.ops[j].k = "mem" => Fam(i.ops[j]) = {})
@@ -243,5 +245,43 @@ LawRegSets == c.k = "ins" =>
     /\ (i.mn \in MnW1R2 /\ Op(i, 1).k \in {"reg", "xmm"} => Fam(Op(i, 1)) \subseteq Writes(i))
     /\ (i.mn \in {"div", "idiv", "mul"} => 0 \in Reads(i) \cap Writes(i))
     /\ (i.mn \in MnStack <=> 4 \in StackRegs(i))
-LawKat == c.k = "kat" => Decode(Kat[c.n][1]) = Kat[c.n][2]
+LawKat == cs.k = "kat" => Decode(Kat[cs.n][1]) = Kat[cs.n][2]
+\* known answers for the register sets (SDM instruction pages): <<bytes, reads, writes>>
+RwKat == <<
+    <<<<72, 1, 216>>, {0, 3}, {0}>>,                       \* add rax, rbx
+    <<<<72, 1, 3>>, {0, 3}, {}>>,                          \* add [rbx], rax
+    <<<<72, 57, 216>>, {0, 3}, {}>>,                       \* cmp rax, rbx
+    <<<<72, 137, 216>>, {3}, {0}>>,                        \* mov rax, rbx
+    <<<<74, 139, 68, 37, 128>>, {5, 12}, {0}>>,            \* mov rax, [rbp+r12-0x80]
+    <<<<72, 137, 4, 36>>, {0, 4}, {}>>,                    \* mov [rsp], rax
+    <<<<72, 141, 68, 11, 8>>, {1, 3}, {0}>>,               \* lea rax, [rbx+rcx+8]
+    <<<<73, 247, 217>>, {9}, {9}>>,                        \* neg r9
+    <<<<73, 211, 225>>, {1, 9}, {9}>>,                     \* shl r9, cl
+    <<<<73, 209, 233>>, {9}, {9}>>,                        \* shr r9, 1
+    <<<<72, 211, 35>>, {1, 3}, {}>>,                       \* shl qword [rbx], cl
+    <<<<73, 247, 241>>, {0, 2, 9}, {0, 2}>>,               \* div r9
+    <<<<246, 243>>, {0, 3}, {0}>>,                         \* div bl (ax / bl)
+    <<<<73, 15, 175, 193>>, {0, 9}, {0}>>,                 \* imul rax, r9
+    <<<<72, 153>>, {0}, {2}>>,                             \* cqo
+    <<<<72, 152>>, {0}, {0}>>,                             \* cdqe
+    <<<<65, 81>>, {4, 9}, {4}>>,                           \* push r9
+    <<<<88>>, {4}, {0, 4}>>,                               \* pop rax
+    <<<<65, 255, 209>>, {4, 9}, {4}>>,                     \* call r9
+    <<<<195>>, {4}, {4}>>,                                 \* ret
+    <<<<164>>, {6, 7}, {6, 7}>>,                           \* movsb
+    <<<<243, 164>>, {1, 6, 7}, {1, 6, 7}>>,                \* rep movsb
+    <<<<136, 224>>, {0}, {0}>>,                            \* mov al, ah
+    <<<<76, 15, 182, 201>>, {1}, {9}>>,                    \* movzx r9, cl
+    <<<<15, 148, 192>>, {}, {0}>>,                         \* sete al
+    <<<<72, 15, 68, 195>>, {0, 3}, {0}>>,                  \* cmove rax, rbx
+    <<<<72, 135, 216>>, {0, 3}, {0, 3}>>,                  \* xchg rax, rbx
+    <<<<243, 68, 15, 16, 201>>, {17}, {25}>>,              \* movss xmm9, xmm1
+    <<<<242, 69, 15, 17, 77, 0>>, {13, 25}, {}>>,          \* movsd [r13], xmm9
+    <<<<242, 15, 88, 193>>, {16, 17}, {16}>>,              \* addsd xmm0, xmm1
+    <<<<242, 73, 15, 42, 201>>, {9}, {17}>>,               \* cvtsi2sd xmm1, r9
+    <<<<242, 68, 15, 45, 203>>, {19}, {9}>>,               \* cvtsd2si r9d, xmm3
+    <<<<102, 68, 15, 46, 203>>, {19, 25}, {}>>,            \* ucomisd xmm9, xmm3
+    <<<<15, 5>>, {}, {1, 11}>> >>                           \* syscall
+LawRwKat == cs.k = "kat" /\ cs.n <= Len(RwKat) =>
+    LET d == Decode(RwKat[cs.n][1]) IN d.st = "ok" /\ Modelled(d) /\ Reads(d) = RwKat[cs.n][2] /\ Writes(d) = RwKat[cs.n][3]
 =============================================================================
